@@ -811,3 +811,25 @@ func pipelineGroups(names []string) [][][][]byte {
 	}
 	return out
 }
+
+// lastPairVectors: multi-pair commands whose LAST (or only) pair carries an over-long field / member / key
+// (10241 bytes) or one of exactly the limit, the earlier pairs being valid (deterministic)
+func lastPairVectors() []vector {
+	var out []vector
+	long := string(longSub)
+	lim := string(longSub[:10240])
+	for _, x := range []string{long, lim} {
+		for _, t := range [][]string{
+			{"hmset", "vns:t:lp1", x, "1"}, {"hmset", "vns:t:lp1", "a", "1", x, "2"}, {"hmset", "vns:t:lp1", "a", "1", "b", "2", x, "3"},
+			{"hmset", "vns:t:lp1", x, "1", "b", "2"},
+			{"zadd", "vns:t:lp2", "1", "a", "2", x}, {"zadd", "vns:t:lp2", "1", x},
+			{"sadd", "vns:t:lp3", "a", "b", x}, {"hdel", "vns:t:lp1", "a", x}, {"srem", "vns:t:lp3", "a", x}, {"zrem", "vns:t:lp2", "a", x},
+			{"plset", "vns:t:lp4", "1", "vns:t:" + x, "2"}, {"geoadd", "vns:t:lp5", "13.36", "38.11", "a", "15.08", "37.5", x},
+			{"hset", "vns:t:lp1", x, "1"}, {"hsetnx", "vns:t:lp1", x, "1"}, {"hincrby", "vns:t:lp1", x, "1"}, {"lpush", "vns:t:lp6", "a", x},
+			{"set", "vns:t:" + x, "v"}, {"setex", "vns:t:" + x, "100000", "v"}, {"del", "vns:t:" + x},
+		} {
+			out = append(out, vector{args: bb(t), base: t[0], mut: "lastpair-det"})
+		}
+	}
+	return out
+}
